@@ -236,8 +236,13 @@ theorem decryptKey_never_panics (k : Keystore.KeyFile) : (Keystore.decryptKey k)
     repeat (first | rfl | split)
   · have h10 : ¬ (k.dklen ≥ Keystore.allocLimit) := by
       unfold Keystore.maxDKLen at h9; unfold Keystore.allocLimit; omega
-    simp only [h1, h2, h3, h4, h9, h10, if_false]
-    repeat (first | rfl | split)
+    by_cases h11 : k.c > Keystore.maxIter
+    · simp only [h1, h2, h3, h4, h9, h11, if_true, if_false]
+      repeat (first | rfl | split)
+    · have h12 : ¬ (k.c ≥ Keystore.iterLimit) := by
+        unfold Keystore.maxIter at h11; unfold Keystore.iterLimit; omega
+      simp only [h1, h2, h3, h4, h9, h10, h11, h12, if_false]
+      repeat (first | rfl | split)
 
 /-- the unrepaired function did panic: negative or short `dklen`, IV of the wrong size (F4) -/
 def f4Witness : Keystore.KeyFile :=
@@ -261,6 +266,11 @@ example : (Keystore.decryptKey f4Witness).isPanic = false := by decide
 checked, so any file and any password do) -/
 example : (Keystore.decryptKeyF4 { f4Witness with dklen := 2 ^ 62 }).isPanic = true := by decide
 example : (Keystore.decryptKey { f4Witness with dklen := 2 ^ 62 }).isPanic = false := by decide
+
+/-- before the repair of F29 an oversized iteration count kept `Load` from returning (the key derivation runs before
+the MAC is checked, so any file and any password do) -/
+example : (Keystore.decryptKeyF22 { f4Witness with dklen := 32, c := 2 ^ 62 }).isPanic = true := by decide
+example : (Keystore.decryptKey { f4Witness with dklen := 32, c := 2 ^ 62 }).isPanic = false := by decide
 
 /-- AOL single-item queries never panic (the key is encoded with `Encode`, F3). -/
 theorem aol_item_queries_never_panic (c : AddrCodec) (s : Aol.State) (o t w : Bytes) (n : Nat) :
